@@ -123,6 +123,58 @@ func DecodeRawNode(b []byte) (*RawNode, bool) {
 	return n, true
 }
 
+// RandomProto produces a protobuf-shaped byte string: a random sequence of
+// fields (numbers around those UnixFS uses, every wire type, extreme values,
+// repeated and nested occurrences), optionally cut short. It is what a
+// grammar-aware fuzzer feeds a hand-written protobuf decoder.
+func RandomProto(next func() uint64, depth int) []byte {
+	var out []byte
+	n := int(next() % 7)
+	ext := []uint64{0, 1, 2, 5, 127, 128, 1 << 31, 1<<32 - 1, 1<<63 - 1, 1 << 63, 1<<64 - 1}
+	for i := 0; i < n; i++ {
+		num := protowire.Number([]int32{1, 2, 3, 4, 5, 6, 7, 8, 9, 15, 100, 1}[next()%12])
+		switch next() % 6 {
+		case 0, 1:
+			out = protowire.AppendTag(out, num, protowire.VarintType)
+			out = protowire.AppendVarint(out, ext[next()%uint64(len(ext))])
+		case 2:
+			out = protowire.AppendTag(out, num, protowire.BytesType)
+			var b []byte
+			if depth < 2 && next()%2 == 0 {
+				b = RandomProto(next, depth+1)
+			} else {
+				b = make([]byte, next()%9)
+				for j := range b {
+					b[j] = byte(next())
+				}
+			}
+			out = protowire.AppendBytes(out, b)
+		case 3:
+			out = protowire.AppendTag(out, num, protowire.Fixed32Type)
+			out = protowire.AppendFixed32(out, uint32(next()))
+		case 4:
+			out = protowire.AppendTag(out, num, protowire.Fixed64Type)
+			out = protowire.AppendFixed64(out, next())
+		default:
+			// a non-minimal varint, a group marker, or a length that overruns
+			switch next() % 3 {
+			case 0:
+				out = protowire.AppendTag(out, num, protowire.VarintType)
+				out = append(out, 0x81, 0x80, 0x80, 0x00)
+			case 1:
+				out = protowire.AppendTag(out, num, protowire.StartGroupType)
+			default:
+				out = protowire.AppendTag(out, num, protowire.BytesType)
+				out = protowire.AppendVarint(out, 1+next()%1000)
+			}
+		}
+	}
+	if len(out) > 0 && next()%5 == 0 {
+		out = out[:int(next()%uint64(len(out)))]
+	}
+	return out
+}
+
 // RawUnixFS is the UnixFS Data message with explicit presence.
 type RawUnixFS struct {
 	Type        uint64
